@@ -7,6 +7,9 @@ From RPFT Require Import Base.Sexp Base.PyStr Base.PyStrFacts Base.SexpEq Base.R
      Comp.Refine Comp.RefineFacts Comp.RefineStore Comp.WeakSim.
 Import ListNotations.
 
+Section WithNames.
+Context {GN : GenNames}.
+
 (* ---------------------------------------------------------------- lists *)
 Lemma number_from_nth {X} (l : list X) i0 i : nth_error (number_from i0 l) i = option_map (fun x => (i0 + i, x)) (nth_error l i).
 Proof.
@@ -574,3 +577,4 @@ Proof.
   - eapply (wsim_traces sexp state state (lts_of_flow F) (lts_of_flow R) lmb (fun b' a' => Rel a' b') bwd_sim); eauto.
 Qed.
 End Final.
+End WithNames.
